@@ -1,7 +1,9 @@
-(* allow-axioms: *)
-From RRE Require Import Base.Sx Model.Watermark Properties.C13.
+(* allow-axioms:  *)
+From RRE Require Import Base.Sx Model.Watermark Proofs.WatermarkProofs.
 Open Scope N_scope.
-Check (C13_wm_monotone : forall ws ls es s, cur s <= cur (fold_left (add_event ws ls) es s)).
+From RRE Require Import Properties.C13.
+Check (C13_wm_monotone : forall ws ls es s,
+  cur s <= cur (fold_left (add_event ws ls) es s)).
 Check (C13_wm_bounded_exact : forall d ls es,
   cur (fold_left (add_event (WBounded d) ls) es init) = maxN (map ets es) - d).
 Check (C13_late_iff_below : forall ws ls s e,
